@@ -1,13 +1,11 @@
 package sim
 
 import (
-	"encoding/hex"
 	"encoding/json"
 	"fmt"
 	"os"
 	"sort"
 	"strings"
-	"unicode/utf8"
 
 	"verif/sim/model"
 	"verif/sim/val"
@@ -37,29 +35,23 @@ type Op struct {
 	Note      string `json:"note,omitempty"`
 }
 
-// Strings that are not valid UTF-8 (cursor keys, ids) would be mangled by
-// encoding/json; they are written as "\x01hex:<hex>" so that replay is exact.
-func encStr(s string) string {
-	if utf8.ValidString(s) && !strings.HasPrefix(s, "\x01hex:") {
-		return s
-	}
-	return "\x01hex:" + hex.EncodeToString([]byte(s))
-}
-
-func decStr(s string) string {
-	if strings.HasPrefix(s, "\x01hex:") {
-		if b, err := hex.DecodeString(strings.TrimPrefix(s, "\x01hex:")); err == nil {
-			return string(b)
-		}
-	}
-	return s
-}
+// Strings that are not valid UTF-8 (collection names, cursor keys, ids) would be
+// mangled by encoding/json; they are hex-escaped in run files so that replay is exact.
+func encStr(s string) string { return val.EncStr(s) }
+func decStr(s string) string { return val.DecStr(s) }
 
 type opAlias Op
 
 func (o Op) MarshalJSON() ([]byte, error) {
 	a := opAlias(o)
 	a.ID, a.Coll, a.Field, a.Note = encStr(a.ID), encStr(a.Coll), encStr(a.Field), encStr(a.Note)
+	if len(a.Colls) > 0 {
+		cs := make([]string, len(a.Colls))
+		for i, c := range a.Colls {
+			cs[i] = encStr(c)
+		}
+		a.Colls = cs
+	}
 	return json.Marshal(a)
 }
 
@@ -69,6 +61,9 @@ func (o *Op) UnmarshalJSON(b []byte) error {
 		return err
 	}
 	a.ID, a.Coll, a.Field, a.Note = decStr(a.ID), decStr(a.Coll), decStr(a.Field), decStr(a.Note)
+	for i := range a.Colls {
+		a.Colls[i] = decStr(a.Colls[i])
+	}
 	*o = Op(a)
 	return nil
 }
